@@ -111,6 +111,24 @@ def check_diamonds(c, node, d, steps, res, size):
                 res.violate("c17.map.raises", case, common.exc_str(e), fingerprint="c17.map.raises:" + common.exc_fp(e),
                             size=size)
                 continue
+            # rebasing over a Mapping window [b's map] of a longer mapping equals rebasing over b's map alone
+            try:
+                win = adapters.Mapping([b.get_map(), adapters.StepMap([0, 0, 3])]).slice(0, 1)
+                a3 = a.map(win)
+                if (a3 is None) != (a2 is None) or (a3 is not None and jkey(adapters.step_desc(a3)) != jkey(adapters.step_desc(a2))):
+                    res.violate("c17.map-over-window-differs", case,
+                                None if a3 is None else adapters.step_desc(a3), None if a2 is None else adapters.step_desc(a2),
+                                fingerprint="c17.map-over-window-differs:" + sda["stepType"], size=size)
+            except Exception as e:  # noqa: BLE001
+                res.violate("c17.map.raises", case, common.exc_str(e), fingerprint="c17.map.raises:" + common.exc_fp(e), size=size)
+            # a rebased step reports the map of ITS OWN range (not a stale copy of the original's)
+            for orig, reb in ((a, a2), (b, b2)):
+                if reb is None:
+                    continue
+                fresh = adapters.build_step(c, adapters.step_desc(reb))
+                if list(reb.get_map().ranges) != list(fresh.get_map().ranges):
+                    res.violate("c17.rebased-map-stale", case, list(reb.get_map().ranges), list(fresh.get_map().ranges),
+                                fingerprint="c17.rebased-map-stale:" + type(reb).__name__, size=size)
             if a2 is None or b2 is None:
                 res.violate("c17.dropped", case, ["a dropped" if a2 is None else None, "b dropped" if b2 is None else None],
                             fingerprint="c17.dropped:" + sda["stepType"] + "/" + sdb["stepType"], size=size)
